@@ -4,6 +4,21 @@
 //!   dfs_dist <desc> <sources> [family]  =>  <DfsDist items>                    `[v depth]`
 //!   dfs_pred <desc> <sources> [family]  =>  <DfsPred items> <predecessors()>   `[pred v]`, `none | id`
 //!
+//!   dfs_repoll <desc> <sources> [family] =>  <Dfs polls> <DfsDist polls> <DfsPred polls>
+//!
+//! `dfs_repoll` keeps calling `next()` after a `None` (|sources| + arcs + 2 polls): each poll is an
+//! item or the atom `none`; trailing `none`s are trimmed. An optional FOURTH argument of the first
+//! three ops chooses how the sources are passed: `vec` (slice iterator, exact `size_hint`),
+//! `filter` (lower bound 0), `flatten` (no upper bound), `takewhile` (upper bound larger than the
+//! real length), `mapwhile`.
+//!
+//! `<desc>` is a digraph description of `graphs.rs`, or one of two COMPACT descriptions (large
+//! digraphs given by a formula, so that a case line stays short and the shrinker can work on it):
+//!
+//!   [k <repr> n a b m t [[u v] …]]   arc u→v (u ≠ v) iff (u·a + v·b) mod m < t, minus the listed arcs
+//!                                    (m = t = 1: the complete digraph of order n)
+//!   [b <repr> n h]                   "broom": 0→h and h→v for every v ∉ {0, h}
+//!
 //! Each output is a list, or the atom `panic` when that call panicked. Items are printed exactly
 //! as yielded. The optional third argument only labels the generator family (it ends up in the
 //! evidence histogram); the real code never sees it.
@@ -20,47 +35,127 @@ fn guarded(f: impl FnOnce() -> V) -> V {
     catch_unwind(AssertUnwindSafe(f)).unwrap_or_else(|_| V::atom("panic"))
 }
 
+/// The sources as the caller-side iterator shape `shape` (round 2: lazy iterators whose
+/// `size_hint` is not exact).
+fn src_iter<'a>(sources: &'a [usize], shape: &str) -> Option<Box<dyn Iterator<Item = usize> + 'a>> {
+    Some(match shape {
+        "vec" => Box::new(sources.iter().copied()),
+        "filter" => Box::new(sources.iter().copied().filter(|_| true)),
+        "flatten" => Box::new(sources.iter().map(|&s| vec![s]).flatten()),
+        "takewhile" => Box::new(
+            sources.iter().copied().chain(std::iter::once(usize::MAX)).take_while(|&s| s != usize::MAX),
+        ),
+        "mapwhile" => Box::new(sources.iter().copied().map_while(Some)),
+        _ => return None,
+    })
+}
+
+fn polled<T>(mut it: impl Iterator<Item = T>, polls: usize, show: impl Fn(T) -> V) -> V {
+    let mut out: Vec<V> = (0..polls).map(|_| it.next().map_or_else(V::none, &show)).collect();
+    while out.last() == Some(&V::none()) {
+        let _ = out.pop();
+    }
+    V::L(out)
+}
+
 pub fn eval(op: &str, args: &[V]) -> Option<Vec<V>> {
-    if !matches!(op, "dfs_iter" | "dfs_dist" | "dfs_pred") {
+    if !matches!(op, "dfs_iter" | "dfs_dist" | "dfs_pred" | "dfs_repoll") {
         return None;
     }
-    if args.len() != 2 && args.len() != 3 {
+    if args.len() < 2 || args.len() > 4 {
         return None;
     }
-    let desc = Desc::parse(&args[0])?;
+    let desc = match compact(&args[0]) {
+        Some(d) => d,
+        None => Desc::parse(&args[0])?,
+    };
     let sources = args[1].as_usizes()?;
+    let shape = if args.len() == 4 { args[3].as_atom()?.to_string() } else { "vec".to_string() };
+    let _ = src_iter(&sources, &shape)?;
+    let src = || src_iter(&sources, &shape).expect("shape");
     Some(with_digraph!(&desc, d => {
         match op {
-            "dfs_iter" => vec![guarded(|| {
-                V::us(Dfs::new(&d, sources.iter().copied()).collect::<Vec<_>>())
-            })],
-            "dfs_dist" => vec![guarded(|| {
-                V::pairs(DfsDist::new(&d, sources.iter().copied()).collect::<Vec<_>>())
-            })],
-            _ => {
+            "dfs_iter" => vec![guarded(|| V::us(Dfs::new(&d, src()).collect::<Vec<_>>()))],
+            "dfs_dist" => vec![guarded(|| V::pairs(DfsDist::new(&d, src()).collect::<Vec<_>>()))],
+            "dfs_pred" => {
                 let items = guarded(|| {
                     let mut items = vec![];
-                    for (p, v) in DfsPred::new(&d, sources.iter().copied()) {
+                    for (p, v) in DfsPred::new(&d, src()) {
                         items.push(V::L(vec![V::opt_u(p), V::u(v)]));
                     }
                     V::L(items)
                 });
                 let tree = guarded(|| {
-                    let tree = DfsPred::new(&d, sources.iter().copied()).predecessors();
+                    let tree = DfsPred::new(&d, src()).predecessors();
                     V::L(tree.into_iter().map(V::opt_u).collect())
                 });
                 vec![items, tree]
+            }
+            _ => {
+                let polls = sources.len() + desc.arcs.len() + 2;
+                vec![
+                    guarded(|| polled(Dfs::new(&d, src()), polls, V::u)),
+                    guarded(|| polled(DfsDist::new(&d, src()), polls, |(v, w)| V::L(vec![V::u(v), V::u(w)]))),
+                    guarded(|| polled(DfsPred::new(&d, src()), polls, |(p, v)| V::L(vec![V::opt_u(p), V::u(v)]))),
+                ]
             }
         }
     }))
 }
 
+/// The two compact descriptions (see the module comment). Arcs are listed row by row.
+fn compact(v: &V) -> Option<Desc> {
+    let xs = v.as_list()?;
+    let kind = xs.first()?.as_atom()?;
+    let arcs: Vec<(usize, usize)> = match kind {
+        "k" if xs.len() == 8 => {
+            let n = xs[2].as_usize()?;
+            let (a, b, m, t) = (xs[3].as_usize()?, xs[4].as_usize()?, xs[5].as_usize()?, xs[6].as_usize()?);
+            if m == 0 || n > 4096 || a > 1 << 20 || b > 1 << 20 {
+                return None;
+            }
+            let rm: std::collections::BTreeSet<(usize, usize)> = xs[7].as_pairs()?.into_iter().collect();
+            (0..n)
+                .flat_map(|u| (0..n).map(move |v| (u, v)))
+                .filter(|&(u, v)| u != v && (u * a + v * b) % m < t && !rm.contains(&(u, v)))
+                .collect()
+        }
+        "b" if xs.len() == 4 => {
+            let n = xs[2].as_usize()?;
+            let h = xs[3].as_usize()?;
+            if h >= n || n > 200_000 {
+                return None;
+            }
+            let mut arcs = vec![];
+            if h != 0 {
+                arcs.push((0, h));
+            }
+            arcs.extend((0..n).filter(|&v| v != 0 && v != h).map(|v| (h, v)));
+            arcs
+        }
+        _ => return None,
+    };
+    let repr = xs[1].as_atom()?.to_string();
+    if !graphs::ALL_REPRS.contains(&repr.as_str()) {
+        return None;
+    }
+    let n = xs[2].as_usize()?;
+    let k = arcs.len();
+    Some(Desc { repr, verts: (0..n).collect(), arcs, weights: vec![1; k] })
+}
+
 const OPS: [&str; 3] = ["dfs_iter", "dfs_dist", "dfs_pred"];
 
-/// One input, all three iterators.
-fn show_all(desc: &Desc, sources: &[usize], fam: &str, emit: &mut dyn FnMut(String)) {
+const SHAPES: [&str; 5] = ["vec", "filter", "flatten", "takewhile", "mapwhile"];
+
+/// One input, all three iterators (sources passed as shape number `shape`), optionally re-polled.
+fn show_all(desc: &Desc, sources: &[usize], fam: &str, shape: usize, repoll: bool, emit: &mut dyn FnMut(String)) {
     for op in OPS {
-        emit(show(op, desc, sources, fam));
+        let line = show(op, desc, sources, fam);
+        emit(if shape == 0 { line } else { format!("{line} {}", SHAPES[shape % SHAPES.len()]) });
+    }
+    if repoll {
+        emit(show("dfs_repoll", desc, sources, fam));
     }
 }
 
@@ -143,7 +238,56 @@ fn own_family(rng: &mut Rng, n: usize) -> (&'static str, Vec<(usize, usize)>) {
     }
 }
 
+/// Out-of-distribution stream (round 2): stacks above 65 536 entries need a dense digraph of order
+/// >= 363 (complete: n(n-1)/2 pushes) or a vertex with more than 65 536 out-neighbours. Compact
+/// descriptions; cheapest representations (`al`, `wu`; one `mx`/`el`/`am` each on the smallest).
+fn gen_stress(rng: &mut Rng, emit: &mut dyn FnMut(String)) {
+    let mut line = |desc: String, src: &[usize], fam: &str, emit: &mut dyn FnMut(String)| {
+        for op in OPS {
+            emit(format!("{op} {desc} {} stress:{fam}", V::us(src.iter().copied())));
+        }
+    };
+    // complete digraphs around the thresholds 363 (n(n-1)/2 > 65 536) and 512
+    for (repr, n) in [("al", 512usize), ("wu", 364), ("al", 363), ("mx", 400), ("el", 370), ("am", 380)] {
+        line(format!("[k {repr} {n} 0 0 1 1 []]"), &[0], "complete", emit);
+    }
+    line("[k al 520 0 0 1 1 []]".to_string(), &[519, 3, 100], "complete", emit);
+    emit("dfs_pred [k wu 390 0 0 1 1 []] [7 0] stress:complete takewhile".to_string());
+    emit("dfs_dist [k al 390 0 0 1 1 []] [7 0] stress:complete flatten".to_string());
+    emit("dfs_repoll [k al 370 0 0 1 1 [[5 6]]] [0] stress:complete-minus".to_string());
+    // complete minus a few arcs
+    for _ in 0..2 {
+        let n = 380 + rng.below(140);
+        let rm: Vec<(usize, usize)> = (0..1 + rng.below(4))
+            .map(|_| (rng.below(n), rng.below(n)))
+            .filter(|&(u, v)| u != v)
+            .collect();
+        let s = rng.below(n);
+        line(format!("[k al {n} 0 0 1 1 {}]", V::pairs(rm)), &[s], "complete-minus", emit);
+    }
+    // dense pseudo-random: (u·a + v·b) mod m < t with t/m >= 0.9
+    for i in 0..4 {
+        let n = 430 + rng.below(91);
+        let m = 9 + rng.below(30);
+        let t = m - 1 - rng.below(1 + m / 12);
+        let (a, b) = (1 + rng.below(50), 1 + rng.below(50));
+        let repr = if i % 2 == 0 { "al" } else { "wu" };
+        let mut src = graphs::gen_sources(rng, n);
+        if src.is_empty() {
+            src.push(rng.below(n));
+        }
+        line(format!("[k {repr} {n} {a} {b} {m} {t} []]"), &src, "dense-mod", emit);
+    }
+    // broom: one vertex with 70 000 out-neighbours (a tree: no stale entry can occur)
+    line("[b al 70001 2]".to_string(), &[0], "broom", emit);
+}
+
 pub fn gen(rng: &mut Rng, thorough: bool, emit: &mut dyn FnMut(String)) {
+    if crate::stress() {
+        // the search wants the most promising cases first and has a small budget: only these
+        gen_stress(rng, emit);
+        return;
+    }
     // (1) exhaustive small scope: every digraph on <= 4 vertices x every subset of sources
     //     (incl. the empty one) in ascending, descending and one rotated order, representation
     //     rotating. Quick tier: only a sample of the 4-vertex cases.
@@ -176,7 +320,7 @@ pub fn gen(rng: &mut Rng, thorough: bool, emit: &mut dyn FnMut(String)) {
                     let repr = REPRS[rot % REPRS.len()];
                     rot += 1;
                     let d = mk(repr, n, arcs.clone(), rng);
-                    show_all(&d, &s, "exhaustive", emit);
+                    show_all(&d, &s, "exhaustive", if rot % 4 == 0 { rot / 4 } else { 0 }, rot % 3 == 0, emit);
                 }
             }
         }
@@ -191,7 +335,7 @@ pub fn gen(rng: &mut Rng, thorough: bool, emit: &mut dyn FnMut(String)) {
         rng.shuffle(&mut arcs);
         let d = mk(repr, n, arcs, rng);
         let s = graphs::gen_sources(rng, n);
-        show_all(&d, &s, fam, emit);
+        show_all(&d, &s, fam, if i % 3 == 0 { i / 3 } else { 0 }, i % 2 == 0, emit);
         // same digraph, another representation and all-vertices-as-sources now and then
         if rng.chance(1, 8) {
             let d2 = d.with_repr(REPRS[(i + 1 + rng.below(5)) % REPRS.len()]);
@@ -199,7 +343,7 @@ pub fn gen(rng: &mut Rng, thorough: bool, emit: &mut dyn FnMut(String)) {
             let mut all: Vec<usize> = (0..n).collect();
             rng.shuffle(&mut all);
             all.truncate(1 + rng.below(n.min(6)));
-            show_all(&d2, &all, fam, emit);
+            show_all(&d2, &all, fam, 1 + i, false, emit);
         }
     }
 }
